@@ -1,7 +1,9 @@
 #!/usr/bin/env python3
 """Translator of the Str area (property C06).
 
-Regenerates `lean/Nstd/Generated/StrTables.lean` from the CURRENT sources of the repo
+Regenerates `lean/Nstd/Generated/StrTables.lean` (tables and constants, below) and `lean/Nstd/Generated/StrBody.lean`
+(statement-by-statement translation of the bodies of the lazy-copy mechanism of String.hpp, see "body translator" further
+down) from the CURRENT sources of the repo
 (`NSTD_REPO`, default /repo): the tables and constants of String.hpp / String.cpp the model uses
 
   src/String.cpp          `String::lowerCaseMap[0x101]`, `String::upperCaseMap[0x101]` (256 chars each),
